@@ -756,6 +756,8 @@ def case_shape(ctx, inp):
     _spec_passes(ctx, dsk, keys, want, tag="-shape")
     if inp.get("long"):
         ctx.branch("shape-long-names")
+    if inp.get("exhaustive"):
+        ctx.branch("shape-exhaustive-n%d" % len(K))
 
 
 def _md5(name):
@@ -922,6 +924,25 @@ def generate(ctx):
         yield "specfn", {"graph": g, "keys": _rand_keys(rng, n)}
     for _ in range(ctx.n(250)):
         yield "shape", _gen_shape(rng)
+    # exhaustive small spaces: every DAG shape x every admissible node-kind assignment (alias: exactly one dependency,
+    # data: none) x every non-empty set of requested keys -- n <= 2 always, n = 3 fully and n = 4 sampled when thorough
+    import itertools
+    from props._graph_util import all_dags, nonempty_subsets
+    for n in range(1, 5 if ctx.thorough() else 3):
+        for adj in all_dags(n):
+            choices = [["task"] + (["alias"] if len(adj[i]) == 1 else []) + (["data"] if not adj[i] else []) for i in range(n)]
+            for kinds in itertools.product(*choices):
+                for ks in nonempty_subsets(n):
+                    if n == 4 and rng.random() > 0.25:
+                        continue
+                    yield "shape", {"adj": adj, "kinds": list(kinds), "names": [f"n{i}" if i else "" for i in range(n)],
+                                    "keys": list(ks), "exhaustive": True}
+                    if "alias" not in kinds and (n < 4 or rng.random() < 0.1):
+                        # the same shape as a legacy graph through the legacy passes
+                        g = [[f"n{i}" if i else "", ({"t": [{"fn": i % 6}] + [(f"n{j}" if j else "") for j in adj[i]] + [50 + i]}
+                                                      if kinds[i] == "task" else 60 + i)] for i in range(n)]
+                        yield "opt", {"graph": g, "keys": list(ks), "sel": [i for i in range(n) if i not in ks],
+                                      "grid": [[1, None, "inf", None], ["inf", None, "inf", None], [2, 2, 2, 1]]}
     for _ in range(ctx.n(60)):
         L = rng.randint(2, 4)
         long = rng.random() < 0.6
